@@ -65,7 +65,7 @@ type Lemma struct {
 	File     string
 	Line     int
 	Axiom    bool // stated without proof (listed as trusted)
-	Pattern  []Clause
+	Pattern  [][]Clause // alternative (multi-)patterns
 }
 
 type Contracts struct {
@@ -79,6 +79,9 @@ type Contracts struct {
 	FuncList []*FuncContract
 	Globals  []GlobalFact
 	Ghosts   []ghostDecl
+	ClosedIfaces map[string]bool   // pkgpath.Name
+	FieldInvs    map[string]Clause // pkgpath.Type.field -> invariant over 'value'
+	Inline       map[string]bool   // pkgpath::funcname : small helpers inlined at call sites
 }
 
 type GlobalFact struct {
@@ -89,12 +92,12 @@ type GlobalFact struct {
 var clauseKeywords = map[string]bool{
 	"func": true, "requires": true, "ensures": true, "modifies": true, "panics": true, "maypanic": true,
 	"loop": true, "invariant": true, "decreases": true, "spec": true, "lemma": true, "induct": true,
-	"smt": true, "smtlate": true, "global": true, "package": true, "ghost": true, "type": true, "trusted": true, "props": true, "use": true, "hdruse": true, "axiom": true, "pattern": true, "opaque": true,
+	"smt": true, "smtlate": true, "closed": true, "fieldinv": true, "inline": true, "global": true, "package": true, "ghost": true, "type": true, "trusted": true, "props": true, "use": true, "hdruse": true, "axiom": true, "pattern": true, "opaque": true,
 }
 
 var reFuncHdr = regexp.MustCompile(`^func\s+(.+)$`)
 var reLoop = regexp.MustCompile(`^loop\s+(\d+)\s*:?$`)
-var reSpec = regexp.MustCompile(`^spec\s+(rec\s+)?([A-Za-z_][A-Za-z0-9_']*)\s*\(([^)]*)\)\s*([A-Za-z_][A-Za-z0-9_]*)\s*(=\s*(.*))?$`)
+var reSpec = regexp.MustCompile(`^spec\s+(rec\s+)?([A-Za-z_][A-Za-z0-9_']*)\s*\(([^)]*)\)\s*(\S+)\s*(=\s*(.*))?$`)
 var reLemma = regexp.MustCompile(`^(lemma|axiom)\s+([A-Za-z_][A-Za-z0-9_']*)\s*\(([^)]*)\)\s*$`)
 
 func parseBinders(s string) ([]Binder, error) {
@@ -187,6 +190,23 @@ func (cs *Contracts) loadContractFile(path string, pkg string, goFile bool) erro
 			curF, curLoop, curL = nil, nil, nil
 		case "smtlate":
 			cs.RawSMT = append(cs.RawSMT, "late:"+rest)
+			curF, curLoop, curL = nil, nil, nil
+		case "closed":
+			cs.ClosedIfaces[pkg+"."+rest] = true
+			curF, curLoop, curL = nil, nil, nil
+		case "inline":
+			cs.Inline[pkg+"::"+rest] = true
+			curF, curLoop, curL = nil, nil, nil
+		case "fieldinv":
+			i := strings.Index(rest, " ")
+			if i < 0 {
+				return fmt.Errorf("%s:%d: fieldinv Type.field EXPR", path, l.no)
+			}
+			c, err := mk(strings.TrimSpace(rest[i:]), l.no)
+			if err != nil {
+				return err
+			}
+			cs.FieldInvs[pkg+"."+rest[:i]] = c
 			curF, curLoop, curL = nil, nil, nil
 		case "package":
 			pkg = rest
@@ -371,7 +391,20 @@ func (cs *Contracts) loadContractFile(path string, pkg string, goFile bool) erro
 				return fmt.Errorf("%s:%d: hdruse outside loop", path, l.no)
 			}
 			curLoop.ExitUses = append(curLoop.ExitUses, c)
-		case "induct", "use", "pattern":
+		case "pattern":
+			if curL == nil {
+				return fmt.Errorf("%s:%d: pattern outside lemma", path, l.no)
+			}
+			var mp []Clause
+			for _, part := range splitTopLevel(rest, ',') {
+				c, err := mk(part, l.no)
+				if err != nil {
+					return err
+				}
+				mp = append(mp, c)
+			}
+			curL.Pattern = append(curL.Pattern, mp)
+		case "induct", "use":
 			c, err := mk(rest, l.no)
 			if err != nil {
 				return err
@@ -384,8 +417,6 @@ func (cs *Contracts) loadContractFile(path string, pkg string, goFile bool) erro
 					curL.Induct = append(curL.Induct, c)
 				case "use":
 					curL.Uses = append(curL.Uses, c)
-				case "pattern":
-					curL.Pattern = append(curL.Pattern, c)
 				}
 			} else if curF != nil && kw == "use" {
 				curF.Uses = append(curF.Uses, c)
@@ -423,7 +454,8 @@ func splitTopLevel(s string, sep rune) []string {
 }
 
 func newContracts() *Contracts {
-	return &Contracts{Funcs: map[string]*FuncContract{}, Immut: map[string]bool{}, Closed: map[string][]string{}}
+	return &Contracts{Funcs: map[string]*FuncContract{}, Immut: map[string]bool{}, Closed: map[string][]string{},
+		ClosedIfaces: map[string]bool{}, FieldInvs: map[string]Clause{}, Inline: map[string]bool{}}
 }
 
 // loadSpecDir loads *.spec files (trusted / prelude) from a directory, in name order.
